@@ -282,6 +282,12 @@ func Verif_C15_NamerRewrite(sSelf, sp, sq int) {
 	_, imported := tr2.Imports()[q]
 	verifsym.Assert(imported, "a package referenced only as a type argument of an own-package generic is not imported")
 	verifsym.Assert(tr2.LocalNameOf(q) != "", "a package referenced only as a type argument has no local name")
+	// the same qualified type more than once in one argument list (and the file's own type twice)
+	tr3 := NewDefaultImportTracker()
+	nm3 := NewRawNamer(self, tr3)
+	twice := nm3.Name(gengotypes.Ref(p, "P["+q+".X,"+q+".X,L["+q+".X],"+self+".Y,"+self+".Y]"))
+	l3 := tr3.LocalNameOf(q)
+	verifsym.Assert(twice == tr3.LocalNameOf(p)+".P["+l3+".X,"+l3+".X,L["+l3+".X],Y,Y]", "a type that occurs more than once in the argument list is not rewritten at every occurrence")
 	verifsym.Observe("out", out)
 	verifsym.Reach("end")
 }
